@@ -67,7 +67,10 @@ Fixpoint size (e : expr) : nat :=
 (* the guard: e is in the image of the parser (prefix minus is never left applied to a positive literal)
    and contains none of the shapes that do not survive printing:
      - a cast whose bare operand ends in an open move operand      (`(<-x) as T` prints as `<- x as T`)
-     - a postfix operator (force, member, index, call) on a negative literal   (`(-5)!` prints as `-5!`) *)
+     - a postfix operator (force, member, index, call) on a negative literal   (`(-5)!` prints as `-5!`)
+     - member access directly on an integer literal: at the token level of this model `5 . x` reads back
+       correctly, but the TEXT `5.x` is lexed as a malformed fixed-point literal by the real lexer, so the
+       shape is excluded to keep the token abstraction honest (`(5).x` prints as `5.x`) *)
 Fixpoint ok (e : expr) : Prop :=
   match e with
   | EBin _ l r => ok l /\ ok r
@@ -75,7 +78,7 @@ Fixpoint ok (e : expr) : Prop :=
   | ECond c t x => ok c /\ ok t /\ ok x
   | ECast _ x _ => ok x /\ fits pCasting bpCasting x
   | EForce x => ok x /\ fits pUnaryPostfix bpUnaryPostfix x
-  | EMember _ x _ => ok x /\ fits pAccess bpAccess x
+  | EMember _ x _ => ok x /\ fits pAccess bpAccess x /\ (forall z, x <> EInt z)
   | EIndex x i => ok x /\ ok i /\ fits pAccess bpAccess x
   | EInvoke x args =>
     ok x /\ fits pAccess bpAccess x /\
@@ -93,7 +96,7 @@ Fixpoint okb (e : expr) : bool :=
   | ECond c t x => okb c && okb t && okb x
   | ECast _ x _ => okb x && fitsb pCasting bpCasting x
   | EForce x => okb x && fitsb pUnaryPostfix bpUnaryPostfix x
-  | EMember _ x _ => okb x && fitsb pAccess bpAccess x
+  | EMember _ x _ => okb x && fitsb pAccess bpAccess x && (match x with EInt _ => false | _ => true end)
   | EIndex x i => okb x && okb i && fitsb pAccess bpAccess x
   | EInvoke x args =>
     okb x && fitsb pAccess bpAccess x &&
